@@ -2,7 +2,7 @@
 use dpmc::report::{CheckSpec, Scenario, Tier};
 use serde_json::json;
 
-use crate::conc::{run_conc, ConcScenario, Op};
+use crate::conc::{run_conc, ConcScenario, Op, Pre};
 use crate::mworld::{HookCfg, Out, PoolCfg};
 use crate::seq::{run_seq, SeqScenario};
 use crate::uworld::{run_uconc, run_useq, UBuild, UOp, UScenario, USeqScenario};
@@ -492,6 +492,18 @@ pub fn c07_scenarios(tier: Tier) -> Vec<Scenario> {
     v.push(conc_paid("shrink-grow-vs-getters/ms2", "shrink then grow while two getters run", if b.thorough { 3 } else { 2 }, 0, sc.clone()));
     let sc3 = ConcScenario::new(PoolCfg::simple(2), vec![vec![Op::Resize(1)], vec![Op::Resize(3)], vec![get(), Op::Release]], base);
     v.push(conc_paid("resize-vs-resize/ms2", "two concurrent resizes and a getter", if b.thorough { 3 } else { 2 }, 0, sc3));
+    // races that start from a pool which still owes permits after a shrink
+    let mut sc = ConcScenario::new(slow.clone(), vec![vec![Op::Release], vec![Op::Take], vec![get(), Op::Release]], base);
+    sc.pre = vec![Pre::Hold(0), Pre::Hold(1), Pre::Resize(1)];
+    v.push(conc_paid("owed/return-vs-take-vs-get/ms2to1", "two objects out, shrunk to 1 (one permit owed): a return, a take and a new get race", if b.thorough { 3 } else { 2 }, 0, sc.clone()));
+    sc.actors = vec![vec![Op::Release], vec![Op::Resize(2), Op::Resize(0)], vec![get(), Op::Release]];
+    v.push(conc_paid("owed/return-vs-grow-shrink-vs-get/ms2to1", "one permit owed: a return races with grow + shrink and a new get", if b.thorough { 3 } else { 2 }, 0, sc.clone()));
+    sc.pre = vec![Pre::Hold(0), Pre::Hold(1), Pre::Resize(0)];
+    sc.actors = vec![vec![Op::Release], vec![Op::Release], vec![Op::Resize(1), get_nb(), Op::Release]];
+    v.push(conc_paid("owed/two-returns-vs-grow/ms2to0", "shrunk to 0 with two objects out (two permits owed): both come back while the pool grows to 1", if b.thorough { 3 } else { 2 }, 0, sc.clone()));
+    sc.pre = vec![Pre::Hold(0), Pre::Resize(0)];
+    sc.actors = vec![vec![Op::Take], vec![Op::Close], vec![get()]];
+    v.push(conc_paid("owed/take-vs-close-vs-get/ms2to0", "one permit owed, then take, close and a get race", if b.thorough { 3 } else { 2 }, 0, sc));
     if b.thorough {
         for n in [0usize, 1, 3] {
             let name: &'static str = ["RESIZE0", "RESIZE1", "", "RESIZE3"][n];
